@@ -137,12 +137,12 @@ def run(tier: str, seed: int) -> int:
         _cases.append(dict(id=f"leray/{_D}/{_N}", name="leray", args=[_u], kw=dict(L=2.0)))
     _xs.compare(run_, PID, _cases, os.path.join(tlc.SCRATCH, f"c10xs.{os.getpid()}"))
     # the composed machine (spec/Session.tla): multi-step API sessions generated by TLC -simulate, replayed call by call; this check
-    # reports the mismatches of the operations it owns (leray)
-    if tier != "quick":
+    # reports the mismatches of the operations it owns (leray, make_incompressible)
+    if True:
         from .. import session
         import jax.numpy as _jnp
         import exponax as _ex
-        session.run_for(run_, tier, seed, _ex, _jnp, ['leray'], PID)
+        session.run_for(run_, tier, seed, _ex, _jnp, ['leray', 'incomp'], PID)
     return run_.finish()
 
 
